@@ -230,7 +230,9 @@ class Connection:
         in_txn = st.ghost["txn_open"].term
         sx.oblige(st, "%s/sql:statement-inside-open-transaction@%s" % (sx.cur_func, getattr(node, "lineno", "?")), in_txn, "typestate", node)
         st.ghost["n_statements"] = Val(V.Int, st.ghost["n_statements"].term + 1)
-        outs.append(R(st.fork(), None, engine_error()))
+        failed = st.fork()
+        failed.ghost["engine_failed"] = V.mk_bool(True)     # C07: a statement that failed must abort the transaction, not be swallowed
+        outs.append(R(failed, None, engine_error()))
         rows = st.ghost["rows"]
         if isinstance(stmt, Conc) and isinstance(stmt.v, Stmt):
             sv = stmt.v
@@ -336,6 +338,7 @@ def ghost_sql(sx, st):
         st.ghost[g] = V.mk_int(0)
     st.ghost["last_rowcount"] = V.mk_int(0)
     st.ghost["inserted"] = V.mk_bool(False)
+    st.ghost["engine_failed"] = V.mk_bool(False)
     st.ghost["validated"] = V.mk_bool(False)
     st.ghost["save_authorized"] = V.mk_bool(False)
     st.ghost["selected_row"] = sx.fresh(ROW, "no_row", st)
